@@ -398,6 +398,8 @@ class Port:
 
 
 class SimBus:
+    stamp = None      # optional mapping from virtual time to the timestamp receivers see (the interface's own clock)
+
     def __init__(self, mode="inline", modifiable_tasks=True, loopback=False, shutdown_stops_tasks=True):
         import can
         self._can = can
@@ -499,7 +501,11 @@ class SimBus:
                     continue
                 if port.network is None:
                     continue
-                port.network.listeners[0].on_message_received(self._copy(m))
+                c = self._copy(m)
+                if self.stamp is not None and c.timestamp is not None:
+                    # the interface's own clock (time since it was opened, a monotonic counter, none at all ...)
+                    c.timestamp = self.stamp(c.timestamp)
+                port.network.listeners[0].on_message_received(c)
             if to_devices:
                 for name, fn in self.devices:
                     if src is not None and src.name == name:
